@@ -214,7 +214,23 @@ Setter == /\ Is("Setter")
              /\ base' = IF ~busy /\ Ev.outcome = "ok" THEN c ELSE base
           /\ l' = l + 1 /\ UNCHANGED <<run, scen, params, call, hist>>
 
-Next == Reset \/ Begin \/ Cb \/ CbThrow \/ EndReturn \/ EndThrow \/ BadFate \/ Setter
+\* C09: value of an incremental one-dimensional wirelength model after an update; the logged circuit carries the
+\* updated positions, so the contract is simply "value = from-scratch wirelength along that axis".
+Incr == /\ Is("Incr")
+        /\ LET c == Ev.circ
+               exp == IF Ev.axis = "x" THEN HpwlX(c) ELSE HpwlY(c) IN
+           fails' = (IF Ev.val # exp THEN {F("C09", <<"incremental value", Ev.axis, Ev.step, Ev.val, exp>>, "incremental")} ELSE {})
+        /\ l' = l + 1 /\ UNCHANGED <<run, scen, params, base, objs, call, hist>>
+
+\* C15: the free segments the code computed for one row, against Geometry.FreeSegments (endpoint-based)
+FreeEv == /\ Is("Free")
+          /\ LET exp == FreeSegments(Ev.row, Ev.obs)
+                 got == { <<Ev.segs[k].x0, Ev.segs[k].x1>> : k \in 1..Len(Ev.segs) } IN
+             fails' = (IF got # exp \/ Cardinality(got) # Len(Ev.segs) \/ \E k \in 1..Len(Ev.segs) : Ev.segs[k].o # Ev.row.o
+                       THEN {F("C15", <<"free segments", got, "expected", exp>>, "freespace")} ELSE {})
+          /\ l' = l + 1 /\ UNCHANGED <<run, scen, params, base, objs, call, hist>>
+
+Next == FreeEv \/ Incr \/ Reset \/ Begin \/ Cb \/ CbThrow \/ EndReturn \/ EndThrow \/ BadFate \/ Setter
 Spec == Init /\ [][Next]_vars
 
 ---------------------------------------------------------------------------
